@@ -149,9 +149,9 @@ impl OptCfg {
     /// then seeded.
     pub fn builder(&self) -> Result<BuildOptimiser, String> {
         let mut args: Vec<String> = vec!["optimiser".into()];
+        // (--key=value: a negative number must not be taken for an option)
         let mut push = |k: &str, v: String| {
-            args.push(k.to_string());
-            args.push(v);
+            args.push(format!("{}={}", k, v));
         };
         push("--steps", self.steps.to_string());
         push("--inner-steps", self.inner_steps.to_string());
@@ -431,9 +431,12 @@ pub fn rand_bounds<R: Rng>(rng: &mut R, k: usize) -> (Vec<f64>, Vec<(f64, f64)>)
             1 => -0.5,
             _ => rng.gen_range(-5., 5.),
         };
-        let w: f64 = match rng.gen_range(0, 3) {
-            0 => 1.,
-            1 => 10f64.powf(rng.gen_range(-3., 2.)),
+        // (one range in twelve is empty: a parameter pinned between equal bounds, as a cell
+        // ratio is after an earlier stage has driven it onto its lower limit)
+        let w: f64 = match rng.gen_range(0, 12) {
+            0 => 0.,
+            1..=4 => 1.,
+            5..=8 => 10f64.powf(rng.gen_range(-3., 2.)),
             _ => 2. * std::f64::consts::PI,
         };
         let hi = lo + w;
